@@ -70,10 +70,12 @@ def chi_square(counts: dict, probs: dict, n_total: int, what: str):
 def detector_cfg(draw, allow_imperfect=True):
     if not allow_imperfect:
         return {"eff": 1, "dark": 0, "pc": draw(st.booleans())}
+    # both ends of both ranges are legal values: efficiency 0 (every click is a dark count), p_dark 1 (every mode
+    # clicks once more)
     eff = draw(st.one_of(st.just(1), st.just(1.0), st.floats(0.3, 1.0, exclude_max=True),
-                         st.sampled_from([0.5, 0.9])))
+                         st.sampled_from([0.5, 0.9, 0, 0.0, 0.05])))
     dark = draw(st.one_of(st.just(0), st.just(0), st.floats(0.0, 0.3, exclude_min=True),
-                          st.sampled_from([0.05, 0.2])))
+                          st.sampled_from([0.05, 0.2, 1, 1.0])))
     return {"eff": eff, "dark": dark, "pc": draw(st.booleans())}
 
 
@@ -175,7 +177,17 @@ def run_sampling(case):
         if res.input != in_state:
             raise Violation(f"{what}: result.input is {res.input}, expected {in_state}", key="result-input")
 
-    real_ps = postsel.to_real(ps)
+    # The PostSelection object may have a history: it is used once while it holds all but its last rule, then
+    # completed, then used for the call that is checked (a user who tightens the selection between two runs)
+    staged = None
+    if ps is not None and len(ps.get("rules", ())) >= 2 and int(seed) % 2 == 1:
+        staged = []
+        real_ps = postsel.to_real(ps, staged)
+        for add_rule in staged[:-1]:
+            add_rule()
+        labels.add("post-selection-object-used-before-completed")
+    else:
+        real_ps = postsel.to_real(ps)
     threshold_conflict = (not det["pc"]) and max(hout.values(), default=0) > 1
 
     if method in ("N_inputs", "N_outputs", "sample"):
@@ -197,6 +209,15 @@ def run_sampling(case):
             labels.add("dark-counts")
         if not det["pc"]:
             labels.add("threshold")
+
+    if staged is not None:
+        if method in ("N_inputs", "N_outputs") and not threshold_conflict:
+            try:
+                getattr(smp, "sample_" + method)(200, post_select=real_ps, min_detection=0, seed=seed)
+            except Exception:  # noqa: BLE001, S110  (the warm-up call is not the one being checked)
+                pass
+        if method in ("N_inputs", "N_outputs", "sample"):
+            staged[-1]()
 
     if method == "N_inputs":
         fn = smp.sample_N_inputs
@@ -290,6 +311,12 @@ def run_sampling(case):
         if mass < 1e-6:
             return {"nontrivial": False, "labels": ["qs-mass<1e-6"]}
         qs = emulator.QuickSampler(c, in_state, photon_counting=pc, post_select=real_ps)
+        if staged is not None:
+            try:
+                qs.sample_N_outputs(50, seed=seed)
+            except Exception:  # noqa: BLE001, S110
+                pass
+            staged[-1]()
         labels.add("threshold" if not pc else "photon-counting")
         if method == "qs_N_outputs":
             res = call("QuickSampler.sample_N_outputs", qs.sample_N_outputs, N, seed=seed)
